@@ -189,12 +189,18 @@ def _sort(s, it):
 
 
 class Loop:
-    def __init__(self, invariant=(), decreases=None, modifies=None, ghost_step=None, unroll=None):
+    def __init__(self, invariant=(), decreases=None, modifies=None, ghost_step=None, unroll=None, forget=False, entry_asserts=(), cut_vars=()):
         self.invariant = [invariant] if isinstance(invariant, str) else list(invariant)
         self.decreases = decreases
         self.modifies = modifies
         self.ghost_step = ghost_step
         self.unroll = unroll
+        # abstraction at the loop head: after proving ``entry_asserts`` (named intermediate postconditions) the
+        # variables in ``cut_vars`` are replaced by fresh symbols and every assumption that mentions anything but the
+        # contract's inputs is dropped -- beyond this point only the invariant is known (sound: fewer hypotheses)
+        self.forget = forget
+        self.entry_asserts = list(entry_asserts)
+        self.cut_vars = list(cut_vars)
 
 
 class Contract:
@@ -231,6 +237,7 @@ class Contract:
         time_budget=None,
         prune_timeout_ms=None,
         tier="quick",
+        prefer=None,
     ):
         self.id = cid
         self.target = target
@@ -262,6 +269,7 @@ class Contract:
         self.time_budget = time_budget
         self.prune_timeout_ms = prune_timeout_ms
         self.tier = tier  # 'thorough': only explored in the thorough tier
+        self.prefer = prefer  # solver tried first for this contract's obligations
 
 
 class Lemma:
